@@ -435,6 +435,7 @@ def check_c18(pid, tier, seed, replay):
         cov_total, states, used = {}, 0, set()
         rejected = 0
         incomplete = False
+        masked = set()         # generic laws already reported (masked for the following rounds)
         for rounds in range(12):
             r = None
             cov_total, used_round = {}, set()
@@ -474,11 +475,14 @@ def check_c18(pid, tier, seed, replay):
             if sig.startswith("Export/") and sig not in known:
                 known.add(sig)   # go on under the named deviation: every other loss must still be reported
                 continue
-            # not a named deviation: drop the offending history and go on, unless the same law broke before (enough)
-            traces = [t for t in traces if json.loads(t[0]).get("tid") != e.get("tid")]
-            if sum(1 for x in v.violations if x[0] == sig) > 1 or len(v.violations) >= 10:
+            # not a named deviation: mask exactly this law (group|detail) and go on, so that every other broken law
+            # (e.g. the second export next to the re-imported state) is reported as well
+            mask = "%s|%s" % (group, detail)
+            if mask in known or len(v.violations) >= 10:
                 incomplete = True
                 break
+            known.add(mask)
+            masked.add(mask)
         else:
             raise Infra("trace validation did not converge in 12 rounds")
         v.cov["states"] += states
@@ -492,7 +496,8 @@ def check_c18(pid, tier, seed, replay):
         v.cov["rule"] = ("seeded histories of %d generator steps (contract deployments with constructor storage incl. slots set back to zero and empty "
                          "runtime code, calls that set / zero / delete slots and self-destruct, message-deployed ERC-20 and staking precompiles, "
                          "approvals through an ERC-20 precompile, ownership proofs, governance changes of evm / feemarket / cpc params, disabled flags, "
-                         "full and empty blocks moving the base fee; genesis contracts with zero-valued and code-less storage), a round trip every %d "
+                         "fractional min gas prices below and above the base fee, full and empty blocks and 0-24 idle blocks before an export moving the base fee "
+                         "up, down and onto its floor; genesis contracts with zero-valued and code-less storage), a round trip every %d "
                          "steps; non-trivial = round-trip records whose state holds contract storage; classes count the records holding each kind of content"
                          % (sz["blocks"], sz["every"]))
         v.cov["samples"] = [json.loads(x).get("hist") for x in lines if '"ev":"RoundTrip"' in x][:3]
@@ -510,7 +515,7 @@ def check_c18(pid, tier, seed, replay):
             if corr is None:
                 raise Infra("self-test: no round-trip record with contract storage to corrupt")
             for what, bad in corr:
-                rs = validate_lines(w, "selftest%d" % len(tests), "TraceGenesis", c18_cfg(known), bad)
+                rs = validate_lines(w, "selftest%d" % len(tests), "TraceGenesis", c18_cfg(known - masked), bad)
                 if rs["err"] is None:
                     raise Infra("binding self-test failed (binding vacuous): corrupted %s was accepted" % what)
                 tests.append("%s -> %s/%s" % (what, rs["err"][1], rs["err"][2]))
@@ -520,10 +525,13 @@ def check_c18(pid, tier, seed, replay):
                 raise
             log("binding self-test skipped on a tree that already breaks other laws: %s" % ex)
         v.cov["selftest"] = tests
-        need = ["with.contract-storage", "with.zero-valued-slots", "with.codeless-storage", "with.erc20-precompiles", "with.allowances", "with.proofs"]
+        need = ["with.contract-storage", "with.zero-valued-slots", "with.codeless-storage", "with.erc20-precompiles", "with.allowances", "with.proofs",
+                "with.basefee-on-floor-of-fractional-min-gas-price"]
         missing = [k for k in need if not cov_total.get(k)]
+        if masked:
+            v.cov["note"] = "laws %s were masked after their first report; the counts are of records accepted under that mask" % sorted(masked)
         if incomplete:
-            v.cov["note"] = "validation stopped after the same law broke in two histories; coverage numbers are partial"
+            v.cov["note"] = "validation stopped early; coverage numbers are partial"
         elif missing:
             raise Infra("conformance run vacuous: content classes never seen: %s" % missing)
         v.assumptions = ["block hashes of the old chain (BLOCKHASH) and transient stores are not part of the compared observation",
